@@ -117,6 +117,7 @@ func (f *Frame) instr(in ssa.Instruction) {
 	case *ssa.Slice:
 		f.slice(in)
 	case *ssa.Store:
+		f.siteStoreObligs(in)
 		a := f.val(in.Addr)
 		f.safetyOblig("nil-deref", in, not(eq(a.S, "nilptr")))
 		f.store(a, f.val(in.Val), in.Addr.Type().Underlying().(*types.Pointer).Elem())
@@ -816,7 +817,45 @@ func (f *Frame) siteObligs(in *ssa.Call) {
 		goal := env.trBool(sc.E)
 		g.siteSeq[sc.Label]++
 		g.addOblig(&Oblig{Name: f.obName("site", &Clause{Label: fmt.Sprintf("%s.%d", sc.Label, g.siteSeq[sc.Label])}, 0), Kind: "site",
-			Goal: implies(f.curReach, goal), Pos: f.pos(in.Pos()), Text: sc.Pattern + " requires " + sc.Text})
+			Goal: implies(f.curReach, goal), Pos: f.pos(in.Pos()), Text: sc.Pattern + " requires " + sc.Text,
+			ReplayTemplate: g.FC.Opts["scenario"], ReplayPkgDir: strings.TrimPrefix(strings.TrimPrefix(g.FC.Pkg, modPath), "/")})
+		g.siteHits[sc.Label]++
+	}
+}
+
+// siteStoreObligs emits `site LABEL: store Type.field requires EXPR` obligations (the stored value is bound to `value`).
+func (f *Frame) siteStoreObligs(in *ssa.Store) {
+	g := f.g
+	if !f.top || g.FC == nil || len(g.FC.Sites) == 0 {
+		return
+	}
+	fa, ok := in.Addr.(*ssa.FieldAddr)
+	if !ok {
+		return
+	}
+	pt := fa.X.Type().Underlying().(*types.Pointer)
+	st := pt.Elem().Underlying().(*types.Struct)
+	tname := ""
+	if n, ok := pt.Elem().(*types.Named); ok {
+		tname = n.Obj().Name()
+	}
+	target := tname + "." + st.Field(fa.Field).Name()
+	for _, sc := range g.FC.Sites {
+		if !strings.HasPrefix(sc.Pattern, "store ") || sc.E == nil {
+			continue
+		}
+		if strings.TrimSpace(strings.TrimPrefix(sc.Pattern, "store ")) != target {
+			continue
+		}
+		env := f.envAt(in.Block(), f.cur, nil)
+		env.upTo = f.instrIdx[in]
+		env.bind["value"] = f.val(in.Val)
+		env.bind["target"] = f.val(fa.X)
+		goal := env.trBool(sc.E)
+		g.siteSeq[sc.Label]++
+		g.addOblig(&Oblig{Name: f.obName("site", &Clause{Label: fmt.Sprintf("%s.%d", sc.Label, g.siteSeq[sc.Label])}, 0), Kind: "site",
+			Goal: implies(f.curReach, goal), Pos: f.pos(in.Pos()), Text: sc.Pattern + " requires " + sc.Text,
+			ReplayTemplate: g.FC.Opts["scenario"], ReplayPkgDir: strings.TrimPrefix(strings.TrimPrefix(g.FC.Pkg, modPath), "/")})
 		g.siteHits[sc.Label]++
 	}
 }
